@@ -257,3 +257,19 @@ claim("C14",
       PARSER_NOTE + COMMON_NOTE,
       "Coq proof (directive-scan lemmas) + enumerated/generated placement campaign",
       "DESIGN.md section 6, C14")
+
+
+claim("C15",
+      "Theorems (Coq) on the Finder model: C15_in_scope_files (the files handed to the driver are EXACTLY the "
+      "regular files below the source directory, reached through directories only -- never through or as a symbolic "
+      "link, never a directory -- whose name has a configured extension), C15_extension_exact, C15_lookalikes "
+      "(.RS .rsx .rs.bak, no extension, hidden .rs, trailing dot are out; computed with the translated default "
+      "extension list), C15_only_selected_files_change (driver), C15_relative_to_config_file / "
+      "C15_absolute_source_dir / C15_lock_next_to_config (for EVERY working directory, with the translated lock "
+      "file name). Path and walkdir semantics are a hand model; the tie is the layout campaign: directory layouts "
+      "with look-alikes, *.rs directories, links inside/outside/dangling/upward x extension lists x source_dir and "
+      "config path spellings x invocation directories x both modes through the real binary under the interposer; "
+      "modified / reported / opened files compared with the independently computed scope and with the model.",
+      "std::path::Path, walkdir and the kernel's path resolution are modelled, not verified." + COMMON_NOTE,
+      "Coq proof (tree induction on the Finder model) + directory-layout campaign on the real binary",
+      "DESIGN.md section 6, C15")
